@@ -352,6 +352,26 @@ def run(ctx: Ctx) -> int:
             ok = not src_tests or all(isinstance(t, ast.BoolOp) and isinstance(t.op, ast.Or) and {"defaults", "env"} <= {x.id for x in ast.walk(t) if isinstance(x, ast.Name)} for t in src_tests)
             ctx.oblige("C04.b", ok, c, f"{entry} folds defaults / environment in whenever one of them is switched on" if ok else f"{entry} folds defaults / environment in only under `{ast.unparse(src_tests[0])}`: with defaults=False, env=True the environment (APP_SUBCOMMAND, APP_A, the env config) is ignored by this entry while parse_args / parse_object read it", fn=fe, construct=f"{entry} fold guard")
     ctx.floor("C04.b-fold-calls", n_fold_calls, 4)
+    # C04.j - a default config file that cannot be read is skipped ON ITS OWN: the construct that absorbs the PathError
+    # (suppress / try) wraps the creation of one Path inside the loop over the files; wrapped around the whole list, one
+    # directory matched by a glob pattern makes every default config file disappear from the fold
+    gdf = ctx.func("_core:ArgumentParser._get_default_config_files")
+    from .srcmodel import ancestors as _anc4
+
+    pcalls = [c for c in calls_in(gdf) if call_leaf(c) == "Path"]
+    ctx.need(pcalls, "_get_default_config_files: Path(file, mode=...)")
+    for c in pcalls:
+        chain = []
+        for a_ in _anc4(c):
+            if a_ is gdf:
+                break
+            if isinstance(a_, (ast.With, ast.Try)):
+                chain.append("absorb")
+            elif isinstance(a_, (ast.For, ast.ListComp, ast.GeneratorExp, ast.SetComp, ast.DictComp)):
+                chain.append("loop")
+        ok = "absorb" in chain and "loop" in chain and chain.index("absorb") < chain.index("loop")
+        ctx.oblige("C04.j", ok or "absorb" not in chain, c, "an unreadable default config file is skipped on its own" if ok else ("no construct absorbs the error here" if "absorb" not in chain else "the construct that absorbs the error of an unreadable default config file wraps the whole list: with default_config_files=['ok.json', 'conf.d/*.json'] and a directory among the matches, ok.json is silently ignored as well"), fn=gdf)
+
     ctx.floor("C04.b-default-env-uses", n_env, 1)
     # a config given on the command line / in the environment is merged as a whole: it is parsed with
     # every subcommand section kept, without applying links, and with the previous config published
